@@ -11,7 +11,8 @@ PROP = dict(
           "equal the outputs the bookkeeping model assigns to that side. Non-trivial = >=2 HTLC spends validated and "
           "(a pending remote commitment, a post-reload state, or a duplicate HTLC). Distinct = distinct (params, trace, phase)."),
     assumptions=[
-        "witness types per channel type are chosen by the harness with the same case analysis as contractcourt's resolvers (commit_sweep_resolver.decideWitnessType, htlc_*_resolver); contractcourt's own selection is exercised by C12/C13",
+        "lnwallet job: witness types per channel type are chosen by the harness with the same case analysis as contractcourt's resolvers; contractcourt's OWN selection of witness types / input constructors / lock times is exercised by the contractcourt job TestVerifC05Resolvers (real ChannelArbitrator + resolvers on the real close summaries, every input handed to a capturing sweeper stub is assembled like sweep/txgenerator.go, signed by its own CraftInputScript and run through the interpreter against the actual previous outputs, incl. second-level outputs; see notes/C05b.md)",
+        "contractcourt job: the utxo nursery's own input construction for legacy second-level outputs is not driven (the second-level txs it is handed / that are published are validated); received HTLCs are treated as forwards (preimages come from the witness beacon); sweeps confirm regardless of height (maturity is checked by the interpreter with the sweeper's sequence/locktime convention plus one-block-early negative controls)",
         "the height-0 commitment carries a fixture signature and is not validated (counted skipped)",
         "BIP68/BIP65 maturity is checked through the interpreter's CSV/CLTV opcodes with the sweeper's sequence/locktime convention",
     ],
